@@ -228,6 +228,50 @@ func runPipe(o *opts) {
 		ts := onePipe(o, rr, s, i, pl, distinct)
 		all = append(all, ts...)
 	}
+	// a stage whose verdict may change WITHIN one run: bundle reads the un-owned directory src/, in which
+	// codegen (no inputs: always runs) rewrites src/gen.txt. Whatever dud decides about bundle, it decides
+	// once, and report (which reads bundle's output) never executes before bundle does. (An input
+	// directory holding another stage's output is outside the model's well-formedness premise:
+	// statements only, observation 9.)
+	for k := 0; k < 2; k++ {
+		base := scenarioDir(o, "pipe", 9500+k)
+		p := newProject(o, base, []string{"in", "abs"}[k])
+		p.init()
+		must(os.MkdirAll(filepath.Join(p.Root, "src"), 0o755))
+		must(os.WriteFile(filepath.Join(p.Root, "src", "main.txt"), []byte("main\n"), 0o644))
+		must(os.WriteFile(filepath.Join(p.Root, "params.txt"), []byte("alpha=1\n"), 0o644))
+		must(os.WriteFile(filepath.Join(p.Root, "counter"), nil, 0o644))
+		p.writeStage("codegen.yaml", &StageRec{Cmd: "echo codegen.yaml >> .runlog; echo x >> counter; rm -f src/gen.txt; wc -l < counter > src/gen.txt", Out: []Art{{Path: "src/gen.txt"}}})
+		p.writeStage("bundle.yaml", &StageRec{Cmd: "echo bundle.yaml >> .runlog; rm -f bundle.txt; cat src/main.txt src/gen.txt > bundle.txt", In: []Art{{Path: "src", IsDir: true}}, Out: []Art{{Path: "bundle.txt"}}})
+		p.writeStage("report.yaml", &StageRec{Cmd: "echo report.yaml >> .runlog; rm -f report.txt; cat bundle.txt params.txt > report.txt", In: []Art{{Path: "bundle.txt"}, {Path: "params.txt"}}, Out: []Art{{Path: "report.txt"}}})
+		if res := p.dud("", "stage", "add", "codegen.yaml", "bundle.yaml", "report.yaml"); res.Exit != 0 {
+			continue // refused: nothing to observe
+		}
+		step := func(c Cmd, what string) {
+			t, _ := p.do(c, nil, want(18, 13), nil, nil)
+			t.Obs = append(t.Obs, 9)
+			t.Info["scenario"] = 9500 + k
+			t.Info["step"] = what
+			t.Info["stages"] = 3
+			t.Info["cyclic"] = false
+			all = append(all, t)
+		}
+		step(Cmd{Kind: "run", Targets: []string{"codegen.yaml", "bundle.yaml", "report.yaml"}}, "first run, generator first")
+		cargs := []string{"commit"}
+		if k == 0 {
+			cargs = append(cargs, "--copy")
+		}
+		p.dud("", cargs...)
+		must(os.WriteFile(filepath.Join(p.Root, "params.txt"), []byte("alpha=2\n"), 0o644))
+		step(Cmd{Kind: "run", Targets: []string{"report.yaml", "codegen.yaml", "bundle.yaml"}}, "run naming the consumer first, then the generator, then the stage in between")
+		step(Cmd{Kind: "run"}, "run of everything")
+		s.count("graph:verdict-changes-within-a-run")
+		distinct[fmt.Sprintf("vc%d", k)] = true
+		rmrf(base)
+		if p.CacheCfg != "" && filepath.Dir(p.CacheDir) != base {
+			rmrf(filepath.Dir(p.CacheDir))
+		}
+	}
 	s.Cases = len(all)
 	s.Nontrivial = len(distinct)
 	s.Rule = "pipelines (random DAGs incl. diamonds, skip connections, directory outputs with inputs nested inside them, stages without inputs; 2-/3-cycles, also behind a DAG prefix) x histories over {edit source, edit definition, damage/delete output, run [targets] [--single-stage], commit, status, checkout, graph}; one case = one dud command; non-trivial = a run/commit on a pipeline of >= 2 dependent stages; distinct by (graph, pre-state, command)"
